@@ -50,8 +50,8 @@ def run(chk):
     main, mock_asan, mock_tsan = vlib.build_many(builds(chk.tier))
     T = chk.thorough()
     # ---- (a) RLIMIT_FSIZE at byte offsets
-    per_cfg = 1500 if T else 400
-    chk.absorb(vlib.run_sharded(main, NCFG * per_cfg, chk.seed, chk.tier, ['--mode', 'rlimit', '--dense', 400 if T else 48], tag='c08r', stall_s=240, timeout=7200),
+    per_cfg = 6000 if T else 400
+    chk.absorb(vlib.run_sharded(main, NCFG * per_cfg, chk.seed, chk.tier, ['--mode', 'rlimit', '--dense', 2500 if T else 48], tag='c08r', stall_s=240, timeout=7200),
                'RLIMIT_FSIZE (EFBIG) at byte offsets in a forked child')
     # ---- (b) mock compressor / encoder faults
     chk.absorb(vlib.run_sharded(mock_asan, 6000 if T else 1000, chk.seed, chk.tier, [], tag='c08ma', stall_s=240), 'mock compressor and encoder faults (asan)')
